@@ -44,6 +44,16 @@ Definition py_index (l : list Z) (i : Z) : Z := nth (Z.to_nat i) l 0%Z.
 Definition idx_ok (l : list Z) (i : Z) : bool := (0 <=? i)%Z && (i <? Z.of_nat (length l))%Z.
 Definition py_len {A : Type} (l : list A) : Z := Z.of_nat (length l).
 
+(* temp_m_trunc argument of compress(): None | int | list/tuple/ndarray of int *)
+Inductive temp_arg := TNone | TInt (v : Z) | TList (l : list Z).
+(* range(a, b) and range(a, b, -1) *)
+Definition py_range (a b : Z) : list Z := map (fun i => (a + Z.of_nat i)%Z) (seq 0 (Z.to_nat (b - a))).
+Definition py_range_down (a b : Z) : list Z := map (fun i => (a - Z.of_nat i)%Z) (seq 0 (Z.to_nat (a - b))).
+Definition is_none {A : Type} (o : option A) : bool := match o with None => true | Some _ => false end.
+(* spectrum given as an association list (used by the trace correspondence) *)
+Fixpoint lookupQ (k : Z) (l : list (Z * list Q)) : list Q :=
+  match l with [] => [] | (k', v) :: r => if Z.eqb k k' then v else lookupQ k r end.
+
 (* ---------------------------------------------------------------- Part 2: specification notions *)
 Definition nonneg (s : list Q) : Prop := Forall (fun x => 0 <= x) s.
 Inductive descending : list Q -> Prop :=
